@@ -398,6 +398,11 @@ def run(tier, seed, workers):
     fl = sorted(failures.values(), key=order)
     for f in fl:
         f.pop('gen', None)
+    by_class, minimal = {}, {}
+    for c, v in classes.items():
+        by_class[c.split('|', 1)[1]] = by_class.get(c.split('|', 1)[1], 0) + v
+    for f in fl:
+        minimal.setdefault(f['class'], {'contract': f['contract'], 'key': f['key'], 'input': f['input']})
     out.update({
         'domain': ('STACKS: all container stacks of depth 0..%d over the prefixes %r around the paragraph '
                    '"aaa bbb ccc ddd" (%d documents) x L in 1..%d; DOCS: %d mdgen documents (modes reflow / '
@@ -416,6 +421,8 @@ def run(tier, seed, workers):
         'samples': samples[:6],
         'failures_total': out['failing_cases'],
         'class_counts': classes,
+        'failures_by_class': by_class,
+        'minimal_input_per_class': minimal,
         'failures': select(fl, MAX_FAILURES),
         'elapsed_s': round(t.s(), 1),
     })
